@@ -755,29 +755,33 @@ func (x *Exec) simplifyWithPC(st *State, t *Term) *Term {
 }
 
 func resolveIte(t *Term, holds func(*Term) bool, facts map[*Term]bool) *Term {
-	if t.Op == "ite" {
-		if holds(t.Args[0]) {
-			return resolveIte(t.Args[1], holds, facts)
+	return resolveIteMemo(t, holds, facts, map[*Term]*Term{})
+}
+
+func resolveIteMemo(t *Term, holds func(*Term) bool, facts map[*Term]bool, memo map[*Term]*Term) *Term {
+	if r, ok := memo[t]; ok {
+		return r
+	}
+	res := t
+	if t.Op == "ite" && holds(t.Args[0]) {
+		res = resolveIteMemo(t.Args[1], holds, facts, memo)
+	} else if t.Op == "ite" && facts[Not(t.Args[0])] {
+		res = resolveIteMemo(t.Args[2], holds, facts, memo)
+	} else if len(t.Args) > 0 && t.Op != "forall" && t.Op != "exists" {
+		args := make([]*Term, len(t.Args))
+		ch := false
+		for i, a := range t.Args {
+			args[i] = resolveIteMemo(a, holds, facts, memo)
+			if args[i] != a {
+				ch = true
+			}
 		}
-		if facts[Not(t.Args[0])] {
-			return resolveIte(t.Args[2], holds, facts)
+		if ch {
+			res = rebuild(t, args)
 		}
 	}
-	if len(t.Args) == 0 || t.Op == "forall" || t.Op == "exists" {
-		return t
-	}
-	args := make([]*Term, len(t.Args))
-	ch := false
-	for i, a := range t.Args {
-		args[i] = resolveIte(a, holds, facts)
-		if args[i] != a {
-			ch = true
-		}
-	}
-	if !ch {
-		return t
-	}
-	return rebuild(t, args)
+	memo[t] = res
+	return res
 }
 
 // peekValue evaluates a receiver expression that is a plain variable without side effects.
